@@ -1,9 +1,13 @@
 #!/bin/bash
-# re-confirm every stored seed against the current /repo HEAD (sequential; logs /tmp/confirm_<seed>.log)
+# re-confirm every stored seed against the current /repo HEAD, P at a time (default 4); logs /tmp/confirm_<seed>.log,
+# summary /tmp/confirm_summary.log
+P=${1:-4}
 : > /tmp/confirm_summary.log
-for d in /verif/seeded/*/; do
-  s=$(basename $d); pid=${s:0:3}
-  rm -rf /tmp/seed_$s; cp -r $d /tmp/seed_$s
+one() {
+  s=$1; pid=${s:0:3}
+  rm -rf /tmp/seed_$s; cp -r /verif/seeded/$s /tmp/seed_$s
   python3 /verif/tools/confirm_seed.py /tmp/seed_$s $s $pid > /tmp/confirm_$s.log 2>&1
-  echo "$s exit=$? $(python3 -c "import json;m=json.load(open('/tmp/seed_$s/last_confirmation.json'));c=m;print(c.get('confirmed'),c.get('patch_applies'),c.get('demo_with_patch_rc'),{k:v['rc'] for k,v in c.get('checks',{}).items()})" 2>&1)" >> /tmp/confirm_summary.log
-done
+  echo "$s exit=$? $(python3 -c "import json;c=json.load(open('/tmp/seed_$s/last_confirmation.json'));print(c.get('confirmed'),c.get('patch_applies'),c.get('demo_with_patch_rc'),c.get('rebased'),{k:v['rc'] for k,v in c.get('checks',{}).items()})" 2>&1)" >> /tmp/confirm_summary.log
+}
+export -f one
+ls /verif/seeded | xargs -P $P -I{} bash -c 'one {}'
